@@ -103,4 +103,40 @@ def dotC (row : List Int) (c : Nat) : List Int → Nat → Int
   | [], _ => 0
   | k :: ks, x => row.getD (4 * x + c) 0 % 256 * wrap16 k + dotC row c ks (x + 1)
 
+/-! ### `horiz_convolution_four_rows`: four rows at a time, each row with the same instructions
+    (`mm_load_and_clone_i16x2` of coefficient pairs, masks `mask_lo`, `mask_hi`, `mask` from the source) -/
+
+def clone4 (l : List Int) : List Int := l ++ l ++ l ++ l
+
+/-- the 4-coefficient step for one of the four rows -/
+def acc4r (s row : List Int) (x : Nat) (k0 k1 k2 k3 : Int) : List Int :=
+  let mmkLo := clone4 (kBytes [k0, k1])
+  let mmkHi := clone4 (kBytes [k2, k3])
+  let source := srcBytes row x 4
+  let s := add32 s (madd (pshufb source u8x4_sse4_four_mask_lo) mmkLo)
+  add32 s (madd (pshufb source u8x4_sse4_four_mask_hi) mmkHi)
+
+/-- the 2-coefficient step -/
+def acc2r (s row : List Int) (x : Nat) (k0 k1 : Int) : List Int :=
+  let mmk := clone4 (kBytes [k0, k1])
+  let pix := low64 (srcBytes row x 2)
+  add32 s (madd (pshufb pix u8x4_sse4_four_mask) mmk)
+
+/-- fewer than 4 coefficients left: at most one 2-step and one single step (the same as in the one-row kernel) -/
+def tailR (s row : List Int) (x : Nat) : List Int → List Int
+  | [] => s
+  | [k0] => acc1 s row x k0
+  | [k0, k1] => acc2r s row x k0 k1
+  | k0 :: k1 :: k2 :: _ => acc1 (acc2r s row x k0 k1) row (x + 2) k2
+
+/-- `for k in coeffs_by_4 { .. x += 4 }`, then the remainder -/
+def loopR (row : List Int) : List Int → Nat → List Int → List Int
+  | k0 :: k1 :: k2 :: k3 :: rest, x, s => loopR row rest (x + 4) (acc4r s row x k0 k1 k2 k3)
+  | ks, x, s => tailR s row x ks
+
+/-- one destination pixel of one of the four rows -/
+def pixelR (p : Nat) (row : List Int) (start : Nat) (ks : List Int) : List Int :=
+  let initial := wrap32 (2 ^ (p - 1))
+  (loopR row ks start [initial, initial, initial, initial]).map fun v => packus8 (packs16 (v / 2 ^ p))
+
 end Fir.SimdU8x4
